@@ -1061,10 +1061,6 @@ Lemma eval_nested_time T ev ev' g i w :
   eval_nested T ev g i w = eval_nested T ev' g i w.
 Proof. intros H. unfold eval_nested. rewrite H. reflexivity. Qed.
 
-Lemma eval_graph_clock f T beh rr g t w :
-  (g < length (w_gs w))%nat -> ok (eval_graph (S f) T beh rr g t w) = true \/ True ->
-  now_of g (upd_g g (fun s => g_set_flags (g_started s) true false (g_set_now t s)) w) = t.
-Proof. intros L _. apply now_upd_same; auto. Qed.
 
 (* ------------------------------------------------------------------ 5. push and pull: the parent is due no later *)
 Definition clamp (T : tcfg) (g : nat) (when : Z) (w : world) : Z :=
@@ -1168,3 +1164,107 @@ Proof.
   apply sched_at_own_slot; auto.
   destruct (gc_parent (gcfg_at T g)) as [[pg pn]|] eqn:Hp; auto. left. eapply has_parent_in_range; eauto.
 Qed.
+
+(* ------------------------------------------------------------------ 8. footprint of a capture; bindings *)
+(* scheduling never touches node states *)
+Definition NodesEq (w w' : world) : Prop := forall g, g_nodes (gat g w') = g_nodes (gat g w).
+Lemma NodesEq_refl w : NodesEq w w. Proof. intros g; reflexivity. Qed.
+Lemma NodesEq_trans a b c : NodesEq a b -> NodesEq b c -> NodesEq a c.
+Proof. intros H1 H2 g. rewrite H2, H1; auto. Qed.
+Lemma NodesEq_upd_g g f w : (forall s, g_nodes (f s) = g_nodes s) -> NodesEq w (upd_g g f w).
+Proof. intros H g'. apply (gat_upd_proj g_nodes); auto. Qed.
+
+Lemma NodesEq_sched_local g i when w : NodesEq w (sched_local g i when w).
+Proof.
+  unfold sched_local; cbv zeta. destruct (when <? g_now (gat g w)); [intros x; reflexivity|].
+  destruct (_ || _); [|apply NodesEq_refl]. apply NodesEq_upd_g; reflexivity.
+Qed.
+
+Lemma NodesEq_sched_at d T : forall g i when w, NodesEq w (sched_at d T g i when w).
+Proof.
+  induction d as [|d IH]; intros g i when w; simpl.
+  - destruct (gc_parent _) as [[pg pn]|]; [intros x; reflexivity|apply NodesEq_sched_local].
+  - destruct (gc_parent _) as [[pg pn]|]; [|apply NodesEq_sched_local].
+    assert (K1 := NodesEq_sched_local g i (Z.max when (now_of pg w)) w).
+    destruct (negb (ok _)); auto.
+    match goal with |- NodesEq w (if ?b then sched_at d T pg pn ?wh ?w2 else _) => assert (K2 : NodesEq w w2) end.
+    { destruct (_ && _); auto. eapply NodesEq_trans; eauto. apply NodesEq_upd_g; reflexivity. }
+    destruct (g_started _ && negb _); auto. eapply NodesEq_trans; eauto.
+Qed.
+
+Lemma NodesEq_notify_graphs T sub now : forall gs g w, NodesEq w (notify_graphs T sub now gs g w).
+Proof.
+  induction gs as [|gc r IH]; intros g w; simpl; [apply NodesEq_refl|].
+  eapply NodesEq_trans; [|apply IH].
+  generalize 0%nat. revert w. induction (gc_nodes gc) as [|c cs IHc]; intros w j; simpl; [apply NodesEq_refl|].
+  eapply NodesEq_trans; [|apply IHc]. destruct (_ && _); [apply NodesEq_sched_at|apply NodesEq_refl].
+Qed.
+
+(* the footprint of one error tick: every other node is untouched as a whole; the failing node keeps its
+   value output, scheduler, run counter and lifecycle flag; what is added is the scheduling of readers *)
+Lemma write_err_footprint T g i code now w g' i' :
+  let n := node_at g' i' w in
+  let n' := node_at g' i' (write_err T g i code now w) in
+  ((g', i') <> (g, i) -> n' = n)
+  /\ n_val n' = n_val n /\ n_lmt n' = n_lmt n /\ n_sch n' = n_sch n /\ n_runs n' = n_runs n /\ n_started n' = n_started n.
+Proof.
+  cbv zeta. unfold write_err, notify, node_at.
+  rewrite (NodesEq_notify_graphs T _ now T 0 _ g').
+  unfold upd_node.
+  destruct (Nat.eq_dec g g') as [->|Hn].
+  - destruct (lt_dec g' (length (w_gs w))).
+    + rewrite gat_upd_same; auto. simpl. split.
+      * intros Hd. rewrite nth_update_other; [auto|congruence].
+      * destruct (Nat.eq_dec i i') as [->|Hi].
+        -- destruct (lt_dec i' (length (g_nodes (gat g' w)))).
+           ++ rewrite nth_update_same; auto.
+           ++ rewrite update_oob by lia. repeat split; auto.
+        -- rewrite nth_update_other; auto.
+    + unfold gat, upd_g; simpl. rewrite update_oob by lia. repeat split; auto.
+  - rewrite gat_upd_other; auto. repeat split; auto.
+Qed.
+
+(* boundaries are bindings, at every depth: a bound child input reads the endpoint its owner's own input
+   reads; a nested node's output (a try_except node's `out`) is the child terminal's output *)
+Lemma res_in_bound f T g n slot s pg pn b :
+  nth_error (c_ins (ncfg_at T g n)) slot = Some s -> i_src s < 0 ->
+  gc_parent (gcfg_at T g) = Some (pg, pn) ->
+  find (fun b => (b_node b =? n)%nat && (b_slot b =? slot)%nat) (c_binds (ncfg_at T pg pn)) = Some b ->
+  res_in (S f) T g n slot = res_in f T pg pn (b_outer b).
+Proof.
+  intros Hs Hneg Hp Hb. cbn [res_in]. rewrite Hs. replace (0 <=? i_src s) with false by lia.
+  rewrite Hp, Hb. reflexivity.
+Qed.
+
+Lemma res_out_forward f T g n :
+  is_nested (ncfg_at T g n) = true -> 0 <= c_outn (ncfg_at T g n) ->
+  res_out (S f) T g n 0 = res_out f T (c_child (ncfg_at T g n)) (Z.to_nat (c_outn (ncfg_at T g n))) 0.
+Proof.
+  intros Hn Ho. cbn [res_out]. rewrite Hn. replace (0 <=? c_outn (ncfg_at T g n)) with true by lia. reflexivity.
+Qed.
+
+(* ---- non-vacuity material: the decoded witness program is a well-formed tree ---- *)
+Lemma wf_boom_ident : wf_tree (decode boom_ident_case).
+Proof.
+  repeat split.
+  - intros g pg pn. destruct g as [|[|g]]; vm_compute; intros H; try discriminate.
+    + inversion H; subst. lia.
+    + destruct g; discriminate.
+  - intros g i. destruct g as [|[|g]].
+    + destruct i as [|[|[|[|i]]]]; vm_compute; intros H; try discriminate; try reflexivity.
+      destruct i; discriminate.
+    + destruct i as [|[|i]]; vm_compute; intros H; try discriminate. destruct i; discriminate.
+    + vm_compute. destruct g; destruct i; intros H; try discriminate; destruct i; discriminate.
+Qed.
+
+(* ---- the finding of DESIGN.md 8.1, kept as history: under the rule before the repair the tick after a
+   captured error is lost; under the repaired rule it is delivered (computed on the witness program) ---- *)
+Lemma old_rule_loses_tick :
+  rec_ticks 0 2 (run_nest_rule false boom_ident_case) = [(1, 101); (4, 104)]
+  /\ rec_ticks 0 3 (run_nest_rule false boom_ident_case) = [(2, 107)].
+Proof. vm_compute. split; reflexivity. Qed.
+
+Lemma repaired_rule_delivers_tick :
+  rec_ticks 0 2 (run_nest_rule true boom_ident_case) = [(1, 101); (3, 103); (4, 104)]
+  /\ rec_ticks 0 3 (run_nest_rule true boom_ident_case) = [(2, 107)].
+Proof. vm_compute. split; reflexivity. Qed.
